@@ -31,7 +31,7 @@ EVENTS = ['E', 'X', 'XE', 'D', 'DE', 'BC', 'BB', 'W']
 
 
 def depth(tier):
-    return 4 if tier == 'quick' else 5
+    return 4 if tier == 'quick' else 6
 
 
 def bounds(tier):
